@@ -37,6 +37,9 @@ CLAIMED = {
  "C19": dict(cat="model_checking", design="§4 C19", technique="wallet projection checked by LedgerTrace.tla after every operation",
    text="After every operation: balance = sum of listed unspent slips (limb arithmetic); on reorg-free histories with nothing pending the wallet's unspent set equals the ledger's in-window outputs of the node key.",
    note="wallet-built transactions (create_with_multiple_payments) are covered by the dedicated wallet family (see evidence)"),
+ "C15": dict(cat="model_checking", design="§4 C15", technique="TLC on Sync.tla (transcription of generate_fork_id / generate_last_shared_ancestor checked for all p <= a, b <= N; exchange with concurrent out-of-order fetch completions: NothingSkipped, Converges under weak fairness) + two whole real nodes joined by an in-memory network whose scheduler is the harness + trace validation against SyncTrace.tla",
+   text="Sync.tla transcribes the fork identifier and the common-ancestor estimate with the real weights; TLC shows the estimate is never later than the fork point for every prefix and pair of chain lengths up to the bound, that every needed block is announced, and that the syncing node reaches the peer's tip under weak fairness for every bounded (prefix, own blocks, peer blocks, batch) - and that the same model with the pinned orphan rule does not (sensitivity). Two real nodes (routing, verification, consensus handlers; handshake, chain request, header-hash stream, fetch scheduler, block files served by the peer) are connected by the harness, which picks the next message, fetch completion or internal queue item (fifo, lifo, seeded random; batch 1..10); SyncTrace requires every run to end with the syncing node on the peer's tip, every needed block announced, no panic, and every estimate computed by the real functions on real chains (lengths straddling the checkpoints 10..75) to equal the transcription and not exceed the fork point.",
+   note="hashes injective in the model (two-byte fork-id fragments can collide in reality); schedules sampled beyond the bounded model"),
  "C16": dict(cat="model_checking", design="§4 C16", technique="TLA+ spec FetchSched.tla transcribing BlockchainSyncState; TLC exhaustive safety + liveness (weak fairness) on bounded instances; -simulate GEN; exact trace validation of every scheduler call (FetchSchedTrace.tla)",
    text="The scheduler's state and every branch are transcribed into TLA+ functions (Build/Select/Fetched/Failed/Remove). TLC checks in-flight<=batch, no unsigned underflow, no block in flight twice per peer, retry bound, per-round height order and (under weak fairness) that every queued block is eventually requested, exhaustively for small peer/hash universes including a peer announcing one hash under two ids. Every call of the real scheduler in TLC-generated and random scenarios is compared with the specification's function of the observed pre-state and the invariants are evaluated on every observed state; MaxRetries is bound to the real constant 500 in validation.",
    note="trusted: TLC, cfg(saito_verif) accessors of BlockchainSyncState, harness sched.rs; liveness is proved on the bounded model only"),
